@@ -518,3 +518,45 @@ def replay_cli(ctx, rep):
         check_layer(ctx, drv, [rep['layer']])
     else:
         check_strings(ctx, drv)
+
+
+# ---------------------------------------------------------------------------------------------
+# `decode -m` with --filter / --continue-on-error / --ignore-value-expectation through pybufrkit.main() (cli_io.glue_stream):
+# called from harness/props/c11.py (parts filter, prepbufr) and harness/props/c12.py (part damaged)
+def run_stream_glue(ctx, parts, groups):
+    rng = ctx.rng('cli-stream')
+    base = tempfile.mkdtemp(prefix='c09cli_')
+    try:
+        for g in range(groups):
+            msgs = []
+            i = rng.randrange(10000)
+            while len(msgs) < 4:
+                b = build(make_case(rng, i))
+                i += 1
+                if b is not None:
+                    ref = cli_io.reference(b)[2]
+                    if isinstance(ref, bytes) and ref.count(b'BUFR') == 1:
+                        msgs.append(ref)
+            use = tuple(p for p in parts if p != 'prepbufr' or g == 0)
+            r = cli_io.glue_stream(msgs, base, parts=use)
+            ctx.case({'cli-stream': [core.chash(m.hex()) for m in msgs], 'parts': list(use)}, nontrivial=True)
+            ctx.count('cli-stream:groups')
+            for k, v in r['stats'].items():
+                ctx.count('cli-stream:' + k, v)
+            if r['problems']:
+                stage, why = r['problems'][0]
+                ctx.violation('oracle cli %s: %s' % (stage, why), {'cli_stream': [m.hex() for m in msgs], 'parts': list(use), 'stage': stage, 'why': why},
+                              signature={'kind': 'oracle', 'stage': 'cli-stream:' + stage.split(':')[0]})
+    finally:
+        shutil.rmtree(base, ignore_errors=True)
+
+
+def replay_stream_glue(ctx, rep):
+    d = tempfile.mkdtemp(prefix='c09cli_')
+    try:
+        r = cli_io.glue_stream([bytes.fromhex(h) for h in rep['cli_stream']], d, parts=tuple(rep.get('parts') or ('filter', 'prepbufr', 'damaged')))
+    finally:
+        shutil.rmtree(d, ignore_errors=True)
+    print('replay: cli stream problems: %s' % (r['problems'] or 'none'))
+    for stage, why in r['problems'][:1]:
+        ctx.violation('oracle cli %s: %s' % (stage, why), rep, signature={'kind': 'oracle', 'stage': 'cli-stream:' + stage.split(':')[0]})
